@@ -17,6 +17,7 @@ typedef struct {
 } ad_plan_t;
 static ad_plan_t ad_plan;
 static int       ad_expect_kind; /* 0 dns, 1 hosts file, 2 literal, 3 localhost */
+static int       ad_literal_other_family;
 static char      ad_revname[200];
 
 static void ad_reverse_name(int family, const uint8_t *a, char *out, size_t outlen)
@@ -161,6 +162,14 @@ static void gen_addr(vh_rng_t *rng)
     } else if (k == 1) {
       snprintf(t->name, sizeof(t->name), "%s", t->family == AF_INET6 ? "2001:db8::9" : "192.0.2.9");
       ad_expect_kind = 2;
+      ad_literal_other_family = 0;
+      if (t->family != AF_UNSPEC && vh_chance(rng, 1, 4)) {
+        /* a literal of the family that was not asked for: whatever the lookup then does (an error, a query for that
+         * text), an address of the other family is not what was requested */
+        snprintf(t->name, sizeof(t->name), "%s", t->family == AF_INET6 ? "192.0.2.9" : "2001:db8::9");
+        ad_literal_other_family = 1;
+        ad_expect_kind          = 0; /* looked up like any other text: the answers decide, family restriction included */
+      }
       if (t->family == AF_UNSPEC) {
         t->family = AF_INET;
       }
@@ -395,7 +404,7 @@ static void mon_addr(void)
   }
   if (ad_expect_kind == 2 || ad_expect_kind == 3) {
     MON_EVAL("addr_literal_or_loopback");
-    if (sim_ntx != 0) {
+    if (sim_ntx != 0 && !(ad_expect_kind == 2 && ad_literal_other_family)) {
       vh_violation("addr:local-name-went-to-network", "'%s' caused %d questions", t->name, sim_ntx);
     }
     if (t->cb_status == ARES_SUCCESS) {
